@@ -115,6 +115,37 @@ def run(tier, seed):
         if msg and len(fails) < 20:
             fails.append({"property": "C20", "signature": "lru-discipline-falsy-results", "what": msg + " (wrapped function returns None/0/''/False for some keys)",
                           "cap": cap, "calls": calls[:40], "keymod": 0, "observed": real["steps"][-3:]})
+    # keys whose Python hashes collide (hash(-1) == hash(-2), hash(0) == hash(2**61-1), tuples of those): a cache must
+    # compare keys, not hashes (oracle only: the model's keys are naturals)
+    EXOTIC = [-2, -1, 0, 2 ** 61 - 1, (-1, "a"), (-2, "a"), 1.0, 1, True, "1"]
+    h = lambda k: ("v", repr(k))  # noqa: E731   distinct result per distinct *repr* (1, 1.0 and True are equal keys)
+    canon_key = {repr(k): next(repr(j) for j in EXOTIC if j == k and type(j) in (type(k), int, float, bool)) for k in EXOTIC}
+    nexo = 0
+    for cap, calls, keymod in hist[::5] + hist[-nrand:]:
+        if keymod != 0 or cap < 1:
+            continue
+        nexo += 1
+        ks = [EXOTIC[a % len(EXOTIC)] for a in calls]
+        count = [0]
+
+        def wrapped(k):
+            count[0] += 1
+            return ("v", canon_key[repr(k)])
+        fn = lru_cache(lambda k: k, cap)(wrapped)
+        cached = []   # reference LRU over keys compared by equality, most recent last
+        for k in ks:
+            before = count[0]
+            ret = fn(k)
+            miss = not any(k == c for c in cached)
+            if (count[0] > before) != miss or ret != ("v", canon_key[repr(k)]):
+                if len(fails) < 20:
+                    fails.append({"property": "C20", "signature": "lru-key-equality",
+                                  "what": "key %r: %s, returned %r (keys with colliding hashes must not share an entry; equal keys must)"
+                                          % (k, "recomputed on a hit" if count[0] > before and not miss else "not recomputed on a miss" if miss and count[0] == before else "wrong value", ret),
+                                  "cap": cap, "keys": [repr(x) for x in ks[:30]]})
+                break
+            cached = [c for c in cached if not (c == k)] + [k]
+            cached = cached[-cap:]
     resps = Driver().batch(reqs)
     for (cap, calls, keymod), real, resp in zip(hist, reals, resps):
         if canon(resp) != canon(real):
@@ -128,7 +159,7 @@ def run(tier, seed):
             "exhaustive": True,
             "disagreements": disagreements, "oracle_failures": fails,
             "distribution": {"histories": len(hist), "with_eviction": evictions, "max_len_exhaustive": maxlen,
-                             "histories_with_falsy_results": nfalsy}}
+                             "histories_with_falsy_results": nfalsy, "histories_with_colliding_hashes": nexo}}
 
 
 if __name__ == "__main__":
